@@ -6,6 +6,7 @@ import (
 	"fmt"
 	"sort"
 	"strings"
+	"sync/atomic"
 
 	"verif/engine/core"
 	"verif/gen/keys"
@@ -66,7 +67,7 @@ func toDoc(m M) document.Document {
 func Run(r *core.Run) {
 	listLen := core.Pick(r, 4, 5)
 	r.Rule = fmt.Sprintf("documents: single keys over 6 types x all 32 purpose subsets x {JWK, base58} (valid combinations per the constraint predicate) + 2-3 key combinations, 0-2 services with extra members, 0-2 also-known-as; "+
-		"x 16 option combinations (+ custom / incomplete key-context map) x both transformers; metadata: commitments {empty,set} x anchor origin {nil,string,object} x deactivated x created/updated/version {0,set} x published x canonical/equivalent ids; "+
+		"x 16 option combinations (+ custom / incomplete key-context map) x both transformers; histories on one shared transformer: all sequences (a,b,a) (thorough: all (a,b,c)) over documents that reuse the key id / service id with other material, types and DIDs; metadata: commitments {empty,set} x anchor origin {nil,string,object} x deactivated x created/updated/version {0,set} x published x canonical/equivalent ids; "+
 		"operation lists: all sequences of length <= %d over (time, number) in {0,1,2}^2 x 2 canonical references; distinct = distinct (document, options) / model / list cases; non-trivial = all", listLen)
 	r.Assumptions = []string{"reference result ref/resolution written from the statement (DID core vocabulary)", "operations with equal (time, number) may come in any order (compared as multisets)",
 		"'updated time without version id' and 'created time while unpublished' are observed, not judged"}
@@ -194,6 +195,107 @@ func Run(r *core.Run) {
 		}
 	})
 	r.Sample(M{"internal_document": docs[len(singleKeys)+10], "options": "all 16 combinations + custom key context"})
+
+	// ---------- histories on one shared transformer: a transformer is a long-lived component, so every result must be the
+	// function of its own input whatever was transformed before (the same DID re-resolved after a key rotation keeps its key ids)
+	{
+		var hist []M
+		b58s := []string{"GY4GunSXBPBfhLCzDL7iGmP5dR3sBDCJZkkaGK8VgYQf", "3M1jkCcMSCJhBYBCV2bFbBB6jNzpJ1sKTGf1VbxsQFHt"}
+		for _, t := range keyTypes {
+			purp := []any{"authentication"}
+			switch t {
+			case "X25519KeyAgreementKey2019":
+				purp = []any{"keyAgreement"}
+			case "Bls12381G2Key2020":
+				purp = []any{"assertionMethod"}
+			}
+			for i := 1; i <= 2; i++ {
+				if k := mkKey("k", t, "jwk", purp, i); rules.ValidKey(k) {
+					hist = append(hist, M{"publicKey": []any{k}})
+				}
+				k := mkKey("k", t, "b58", purp, i)
+				k["publicKeyBase58"] = b58s[i-1]
+				if rules.ValidKey(k) {
+					hist = append(hist, M{"publicKey": []any{k}})
+				}
+			}
+		}
+		hist = append(hist, M{"publicKey": []any{mkKey("k", "JsonWebKey2020", "jwk", []any{"authentication"}, 1)}, "service": []any{M{"id": "s", "type": "A", "serviceEndpoint": "https://a.example/"}}, "alsoKnownAs": []any{"https://one.example/"}},
+			M{"publicKey": []any{mkKey("k", "JsonWebKey2020", "jwk", []any{"assertionMethod"}, 1)}, "service": []any{M{"id": "s", "type": "B", "serviceEndpoint": []any{"https://b.example/"}, "extra": 1.0}}, "alsoKnownAs": []any{"https://two.example/"}},
+			M{"service": []any{M{"id": "s", "type": "A", "serviceEndpoint": "https://a.example/"}}}, M{})
+		dids := []string{did, "did:sidetree:EiOtherSuffix"}
+		type sym struct {
+			d   M
+			did string
+		}
+		var syms []sym
+		for _, d := range hist {
+			for _, x := range dids {
+				syms = append(syms, sym{d, x})
+			}
+		}
+		r.Extra["history_symbols"] = len(syms)
+		depth3 := r.Thorough()
+		hOpts := optCases
+		if !r.Thorough() {
+			hOpts = []optCase{optCases[0], optCases[1], optCases[2], optCases[3], optCases[15], optCases[16]}
+		}
+		var seqs int64
+		core.Parallel(len(syms)*len(hOpts), func(job int) {
+			oc, a := hOpts[job/len(syms)], job%len(syms)
+			var n int64
+			for b := range syms {
+				thirds := []int{a}
+				if depth3 {
+					thirds = thirds[:0]
+					for c := range syms {
+						thirds = append(thirds, c)
+					}
+				}
+				for _, c := range thirds {
+					seq := []int{a, b, c}
+					id := fmt.Sprintf("history/%s/%d-%d-%d", oc.name, a, b, c)
+					n++
+					r.Case(id, func() *core.Fail {
+						tr := didtransformer.New(oc.mk()...)
+						var held []*document.ResolutionResult
+						var wants []any
+						for step, si := range seq {
+							sy := syms[si]
+							inf := protocol.TransformationInfo{"id": sy.did, "published": true}
+							res, err := tr.TransformDocument(&protocol.ResolutionModel{Doc: toDoc(sy.d)}, inf)
+							want, ok := resolution.Document(gen(sy.d).(M), sy.did, oc.o)
+							det := M{"options": oc.name, "sequence_of_documents": []any{syms[seq[0]].d, syms[seq[1]].d, syms[seq[2]].d}, "sequence_of_dids": []any{syms[seq[0]].did, syms[seq[1]].did, syms[seq[2]].did}, "failing_step": step}
+							if !ok {
+								if err == nil {
+									return &core.Fail{Key: id, What: "key type without a context in the configured map transformed without error", Detail: det}
+								}
+								continue
+							}
+							if err != nil {
+								return &core.Fail{Key: id, What: fmt.Sprintf("step %d on a shared transformer failed: %v", step, err), Detail: det}
+							}
+							if got := gen(res.Document); !jcs.Equal(got, gen(want)) {
+								return &core.Fail{Key: id, What: fmt.Sprintf("step %d of a sequence on one shared transformer: document %s differs from the expected %s (the result depends on what was transformed before)", step, core.J(got), core.J(gen(want))), Detail: det}
+							}
+							held, wants = append(held, res), append(wants, gen(want))
+							// results handed out earlier stay what they were
+							for hi, h := range held {
+								if got := gen(h.Document); !jcs.Equal(got, wants[hi]) {
+									det["failing_step"] = hi
+									return &core.Fail{Key: id, What: fmt.Sprintf("the result of step %d was changed by the transformation of step %d on the same transformer: now %s, was %s", hi, step, core.J(got), core.J(wants[hi])), Detail: det}
+								}
+							}
+						}
+						return nil
+					})
+				}
+			}
+			atomic.AddInt64(&seqs, n)
+		})
+		r.Extra["history_sequences"] = seqs
+		r.AddDistinct(seqs)
+	}
 
 	// ---------- metadata combinations (both transformers)
 	type mdCase struct {
